@@ -107,6 +107,31 @@ def known_findings():
     return res
 
 
+class ShardSlot:
+    """One of N_SLOTS machine-wide slots (flock on work/slots/<i>.lock)."""
+    N_SLOTS = 16
+
+    def __enter__(self):
+        import fcntl
+        d = os.path.join(VERIF, "work", "slots")
+        os.makedirs(d, exist_ok=True)
+        while True:
+            for i in range(self.N_SLOTS):
+                f = open(os.path.join(d, "%d.lock" % i), "w")
+                try:
+                    fcntl.flock(f, fcntl.LOCK_EX | fcntl.LOCK_NB)
+                    self.f = f
+                    return self
+                except OSError:
+                    f.close()
+            time.sleep(0.3)
+
+    def __exit__(self, *a):
+        import fcntl
+        fcntl.flock(self.f, fcntl.LOCK_UN)
+        self.f.close()
+
+
 class Run:
     def __init__(self, pid, tier, seed):
         self.pid, self.tier, self.seed = pid, tier, seed
@@ -337,7 +362,15 @@ class Run:
             jobs.append((i * per, name))
         def one(job):
             off, name = job
-            rc, o, dt = sh(["timeout", str(timeout), "coqc", "-Q", COQ, "Sekai", name + ".v"], cwd=outdir)
+            # machine-wide cap on concurrent evaluation shards (each can take 1-2 GB): checks that run
+            # at the same time share the slots; a shard killed without output (out of memory) is
+            # evaluated again, alone in its slot, before it counts as a failure
+            for attempt in range(3):
+                with ShardSlot():
+                    rc, o, dt = sh(["timeout", str(timeout), "coqc", "-Q", COQ, "Sekai", name + ".v"], cwd=outdir)
+                if rc == 0 or (o.strip() and rc not in (137, -9)) or rc == 124:
+                    break
+                time.sleep(20 * (attempt + 1))
             return off, name, rc, o, dt
         mism, viol, failed = [], [], []
         with ThreadPoolExecutor(max_workers=16) as ex:
